@@ -12,6 +12,36 @@ mod update_times;
 use est_time_structs::*;
 use update_times::*;
 
+/// Verification hook H3 (feature `nrel_altrios_verif`, default off, adds code only): records the
+/// estimated-time node array as it is handed to the two shortest-path passes (`update_times_forward`,
+/// `update_times_backward`) together with the departure time, into a thread-local sink.  Nothing is
+/// recorded unless `start()` was called on the thread.
+#[cfg(feature = "nrel_altrios_verif")]
+pub mod verif_hook {
+    use super::*;
+    use std::cell::RefCell;
+
+    thread_local! {
+        static SINK: RefCell<Option<Vec<(Vec<EstTime>, si::Time)>>> = const { RefCell::new(None) };
+    }
+
+    /// Start recording on this thread (clears anything recorded before).
+    pub fn start() {
+        SINK.with(|s| *s.borrow_mut() = Some(Vec::new()));
+    }
+    /// Stop recording and return what was recorded since `start()`.
+    pub fn take() -> Vec<(Vec<EstTime>, si::Time)> {
+        SINK.with(|s| s.borrow_mut().take().unwrap_or_default())
+    }
+    pub(super) fn observe(est_times: &[EstTime], time_depart: si::Time) {
+        SINK.with(|s| {
+            if let Some(v) = s.borrow_mut().as_mut() {
+                v.push((est_times.to_vec(), time_depart));
+            }
+        });
+    }
+}
+
 /// Estimated time node for dispatching
 /// Specifies the expected time of arrival when taking the shortest path with no delays
 #[derive(Debug, Clone, Copy, Serialize, Deserialize, SerdeAPI, PartialEq)]
@@ -750,6 +780,8 @@ pub fn make_est_times<N: AsRef<[Link]>>(
         );
     }
 
+    #[cfg(feature = "nrel_altrios_verif")]
+    verif_hook::observe(&est_times, time_depart);
     update_times_forward(&mut est_times, time_depart);
     update_times_backward(&mut est_times);
 
